@@ -707,6 +707,18 @@ func (e *Env) conjuncts(ex Expr, depth int) []conjunct {
 		if x.Op == "&&" {
 			return append(e.conjuncts(x.L, depth), e.conjuncts(x.R, depth)...)
 		}
+	case *EQuant:
+		if x.Forall {
+			parts := e.splitUnderForall(x.Body, 0)
+			if len(parts) > 1 {
+				var out []conjunct
+				for _, p := range parts {
+					q := &EQuant{true, x.Vars, p}
+					out = append(out, conjunct{fmtExpr(q), e.evalBool(q)})
+				}
+				return out
+			}
+		}
 	case *ECall:
 		if p := e.x.eng.pred(e.pkg, x.Fn); p != nil && depth < 4 && len(p.Params) == len(x.Args) {
 			if b, ok := p.Body.(*EBin); ok && b.Op == "&&" {
@@ -791,4 +803,125 @@ func fmtExpr(ex Expr) string {
 		return "\\" + x.Vars[0].Name + ". " + fmtExpr(x.Body)
 	}
 	return "?"
+}
+
+// ---------- syntactic splitting under universal quantifiers ----------
+
+// substExpr replaces free identifiers by expressions (no capture handling beyond shadowing).
+func substExpr(ex Expr, m map[string]Expr) Expr {
+	if len(m) == 0 {
+		return ex
+	}
+	without := func(names []string) map[string]Expr {
+		n := map[string]Expr{}
+		for k, v := range m {
+			n[k] = v
+		}
+		for _, k := range names {
+			delete(n, k)
+		}
+		return n
+	}
+	switch x := ex.(type) {
+	case *EIdent:
+		if r, ok := m[x.Name]; ok {
+			return r
+		}
+		return x
+	case *EField:
+		return &EField{substExpr(x.X, m), x.Name}
+	case *EIndex:
+		return &EIndex{substExpr(x.X, m), substExpr(x.I, m)}
+	case *ESlice:
+		r := &ESlice{X: substExpr(x.X, m)}
+		if x.Lo != nil {
+			r.Lo = substExpr(x.Lo, m)
+		}
+		if x.Hi != nil {
+			r.Hi = substExpr(x.Hi, m)
+		}
+		return r
+	case *ECall:
+		r := &ECall{Fn: x.Fn}
+		if rep, ok := m[x.Fn]; ok {
+			// application of a substituted function-valued parameter
+			var args []Expr
+			for _, a := range x.Args {
+				args = append(args, substExpr(a, m))
+			}
+			return &EApply{rep, args}
+		}
+		for _, a := range x.Args {
+			r.Args = append(r.Args, substExpr(a, m))
+		}
+		return r
+	case *EApply:
+		r := &EApply{F: substExpr(x.F, m)}
+		for _, a := range x.Args {
+			r.Args = append(r.Args, substExpr(a, m))
+		}
+		return r
+	case *EUn:
+		return &EUn{x.Op, substExpr(x.X, m)}
+	case *EBin:
+		return &EBin{x.Op, substExpr(x.L, m), substExpr(x.R, m)}
+	case *EQuant:
+		var names []string
+		vars := make([]Binder, len(x.Vars))
+		for i, b := range x.Vars {
+			vars[i] = b
+			if b.Like != nil {
+				vars[i].Like = substExpr(b.Like, m)
+			}
+			names = append(names, b.Name)
+		}
+		return &EQuant{x.Forall, vars, substExpr(x.Body, without(names))}
+	case *ESeqLit:
+		r := &ESeqLit{}
+		for _, a := range x.Elems {
+			r.Elems = append(r.Elems, substExpr(a, m))
+		}
+		return r
+	case *ELet:
+		return &ELet{x.Name, substExpr(x.Val, m), substExpr(x.Body, without([]string{x.Name}))}
+	case *ELambda:
+		var names []string
+		vars := make([]Binder, len(x.Vars))
+		for i, b := range x.Vars {
+			vars[i] = b
+			if b.Like != nil {
+				vars[i].Like = substExpr(b.Like, m)
+			}
+			names = append(names, b.Name)
+		}
+		return &ELambda{vars, substExpr(x.Body, without(names))}
+	}
+	return ex
+}
+
+// splitUnderForall splits the body of a universal quantifier into conjuncts: A ==> (B && C) gives A ==> B, A ==> C;
+// predicate applications whose body is such a formula are unfolded syntactically (same package scope only).
+func (e *Env) splitUnderForall(body Expr, depth int) []Expr {
+	switch x := body.(type) {
+	case *EBin:
+		switch x.Op {
+		case "&&":
+			return append(e.splitUnderForall(x.L, depth), e.splitUnderForall(x.R, depth)...)
+		case "==>":
+			var out []Expr
+			for _, r := range e.splitUnderForall(x.R, depth) {
+				out = append(out, &EBin{"==>", x.L, r})
+			}
+			return out
+		}
+	case *ECall:
+		if p := e.x.eng.pred(e.pkg, x.Fn); p != nil && depth < 3 && len(p.Params) == len(x.Args) && p.Pkg == e.pkg {
+			m := map[string]Expr{}
+			for i, a := range x.Args {
+				m[p.Params[i]] = a
+			}
+			return e.splitUnderForall(substExpr(p.Body, m), depth+1)
+		}
+	}
+	return []Expr{body}
 }
